@@ -92,6 +92,8 @@ def listed(data, lo, hi):
 
 
 def draw_number(d, numcls, name):
+    if isinstance(numcls, int):
+        return numcls               # a fixed number (decode_mutated shapes)
     if numcls == 'lo':
         return d.int(0, 14, name)
     if numcls == 'hi':
@@ -330,12 +332,12 @@ def decode_total(d, n, lows, sub=None, lo=0):
 
 
 @meta(bounds="a single Tag decoded from EVERY octet string of length 0..n (n=7: long enough for extended number + "
-             "255-escape + 4 length octets + content), length and every octet symbolic; split by the low 3 bits "
+             "255-escape + 4 length octets + content), length and every octet symbolic; split by the low nibble "
              "of the first octet (empty string in the part of 0)",
       outside="buffers longer than n octets")
 def decode_one(d, n, lows, sub=None):
     data = listed(d.bytes(0, n, 'octets'), 0, n)
-    restrict(d, data, 8, lows, sub)
+    restrict(d, data, 16, lows, sub)
     pdu = Watched(data, 16)
     t = None
     try:
@@ -378,24 +380,31 @@ def decode_one(d, n, lows, sub=None):
 
 
 # shapes of the valid streams that decode_mutated damages: (kind, number class, content length)
-# number class 'lo' = symbolic 0..14 (one header octet), 'hi' = symbolic 15..254 (extension octet)
+# number class 'lo' = symbolic 0..14 (one header octet), 'hi' = symbolic 15..254 (extension octet),
+# an int = that fixed number (25 and 47 read as a context tag / closing tag header when out of step)
 SHAPES = {
     'group': [('ctx', 'lo', 2), ('open', 'lo', 0), ('app', 'lo', 1), ('close', 'lo', 0)],
     'escape': [('app', 'lo', 5), ('bool', 'lo', 0), ('ctx', 'hi', 1)],
-    'ext': [('open', 'hi', 0), ('ctx', 'hi', 0), ('close', 'hi', 0), ('app', 'lo', 2)],
+    'ext': [('open', 'hi', 0), ('ctx', 25, 1), ('close', 47, 0), ('app', 'lo', 2)],
 }
 FILLER = [0x2E, 0x19, 0xFE, 0x65, 0x0F]
 CLS_OF = {'app': APP, 'bool': APP, 'ctx': CTX, 'open': OPEN, 'close': CLOSE}
 
 
-@meta(bounds="valid streams (built with the reference encoder of clause 20.2.1) of 3-4 tags of three fixed shapes "
-             "(group: ctx/2 open app/1 close; escape: app/5 bool ctx-extended/1; ext: open-ext ctx-ext close-ext "
-             "app/2) with symbolic tag numbers (0..14 or 15..254 as the shape says) and symbolic content octets, "
-             "damaged by ONE edit: an octet replaced by / inserted as a symbolic octet, or removed, at every "
-             "position (enumerated through a symbolic index); same oracle as decode_total including the "
-             "reference tokenizer",
-      outside="other shapes; more than one edit")
-def decode_mutated(d, shape, op, symdata='all', positions=None):
+@meta(bounds="valid streams (built with the reference encoder of clause 20.2.1) of 3-4 tags, 8-10 octets, of three "
+             "fixed shapes (group: ctx/2 open app/1 close; escape: app/5 bool ctx-extended/1; ext: open-extended "
+             "ctx(25)/1 close(47) app/2) with symbolic tag numbers (0..14 or 15..254 as the shape says; two fixed "
+             "extended numbers in `ext`), damaged by ONE edit: an octet replaced by / inserted as a symbolic octet, "
+             "or removed, at every position (enumerated through a symbolic index); same oracle as decode_total "
+             "including the reference tokenizer.  Content octets of the valid stream: symdata=all every octet "
+             "symbolic, first = the first octet of each content symbolic and the rest fixed octets that read as "
+             "tag headers once the stream is out of step (2E 19 FE 65 0F), none = all fixed.  quick: remove with "
+             "first (group) / none (escape, ext); replace and insert with none for group, replace for escape, "
+             "insert for ext.  thorough: remove with all (group) / first (escape, ext); replace and insert with "
+             "first (group) / none (escape, ext)",
+      outside="other shapes; more than one edit; the content octets that the instance keeps fixed")
+def decode_mutated(d, shapes, op, symdata='all', positions=None):
+    shape = d.pick(shapes, 'shape')
     stream = []
     for i, (kind, ncls, dlen) in enumerate(SHAPES[shape]):
         if kind == 'bool':
@@ -572,32 +581,59 @@ def instances(tier):
                 out.append(Inst(taglist_rt, dict(nlo=4, nhi=4, first=[first], lens=[0, 5], numcls=numcls),
                                 budget=b, label="n=4,numbers=%s,first=%s" % (numcls, first)))
     # decode_total
+    nodata = (0, 6, 7, 8, 14, 15)       # first tag has no contents: the rest is parsed as tags
     if q:
-        for lows in ([0], [1], [2], [3], [4], [5, 9, 10, 11, 12, 13], [6], [7], [8], [14], [15]):
+        for sub in (0, 1):
+            out.append(Inst(decode_total, dict(n=3, lows=[0], sub=sub), budget=b))
+        for lows in ([1], [2], [3], [4], [5, 9, 10, 11, 12, 13], [6], [7], [8], [14], [15]):
             out.append(Inst(decode_total, dict(n=3, lows=lows), budget=b))
     else:
         for low in range(16):
-            for sub in (0, 1):
-                out.append(Inst(decode_total, dict(n=4, lows=[low], sub=sub), budget=b))
-        for low in range(16):
-            out.append(Inst(decode_total, dict(n=5, lows=[low], lo=5), budget=120,
-                            label="attempt,n=5,lows=[%d]" % low))
+            for sub in ((0, 1) if low in nodata else (None,)):
+                out.append(Inst(decode_total, dict(n=4, lows=[low], sub=sub), budget=600))
+        for lows in ([9], [10, 11, 12, 13], [14]):
+            out.append(Inst(decode_total, dict(n=5, lows=lows, lo=5), budget=240,
+                            label="attempt-beyond-bound,n=5,lows=%s" % lows))
     # decode_one
-    for lows in ([0, 1], [2, 3, 4], [5], [6, 7]):
+    for lows in ([0, 1, 8, 9], [2, 3, 4, 10, 11, 12], [5], [13], [6, 7, 14, 15]):
         out.append(Inst(decode_one, dict(n=7, lows=lows), budget=b))
-    # decode_mutated
-    for shape in sorted(SHAPES):
-        for op in ('replace', 'remove', 'insert'):
-            out.append(Inst(decode_mutated, dict(shape=shape, op=op), budget=b))
+    # decode_mutated (symdata: which content octets of the valid stream are symbolic)
+    if q:
+        out.append(Inst(decode_mutated, dict(shapes=['group'], op='remove', symdata='first'), budget=b))
+        out.append(Inst(decode_mutated, dict(shapes=['escape', 'ext'], op='remove', symdata='none'), budget=b))
+        out.append(Inst(decode_mutated, dict(shapes=['group'], op='replace', symdata='none'), budget=b))
+        for part in ([0, 4], [4, 99]):
+            out.append(Inst(decode_mutated, dict(shapes=['group'], op='insert', symdata='none', positions=part),
+                            budget=b))
+        for part in ([0, 8], [8, 9], [9, 99]):
+            out.append(Inst(decode_mutated, dict(shapes=['escape'], op='replace', symdata='none', positions=part),
+                            budget=b))
+        for part in ([0, 1], [1, 2], [2, 3], [3, 99]):
+            out.append(Inst(decode_mutated, dict(shapes=['ext'], op='insert', symdata='none', positions=part),
+                            budget=b))
+    else:
+        out.append(Inst(decode_mutated, dict(shapes=['group'], op='remove', symdata='all'), budget=600))
+        out.append(Inst(decode_mutated, dict(shapes=['escape'], op='remove', symdata='first'), budget=b))
+        out.append(Inst(decode_mutated, dict(shapes=['ext'], op='remove', symdata='first'), budget=b))
+        for op in ('replace', 'insert'):
+            for part in ([0, 1], [1, 2], [2, 4], [4, 99]):
+                out.append(Inst(decode_mutated, dict(shapes=['group'], op=op, symdata='first', positions=part),
+                                budget=600))
+            for shape in ('escape', 'ext'):
+                out.append(Inst(decode_mutated, dict(shapes=[shape], op=op, symdata='none'), budget=b))
     # nesting
-    hi = 5 if q else 6
-    out.append(Inst(nesting, dict(lo=0, hi=1, alphabet='all', prefix=[]), budget=b))
-    for c0 in (APP, CTX, OPEN, CLOSE):
-        for c1 in (APP, CTX, OPEN, CLOSE):
-            out.append(Inst(nesting, dict(lo=2, hi=hi, alphabet='all', prefix=[c0, c1]), budget=b))
-    out.append(Inst(nesting, dict(lo=0, hi=8 if q else 10, alphabet='brackets', prefix=[]), budget=b))
-    if not q:
+    if q:
+        out.append(Inst(nesting, dict(lo=0, hi=0, alphabet='all', prefix=[]), budget=b))
+        for c0 in (APP, CTX, OPEN, CLOSE):
+            out.append(Inst(nesting, dict(lo=1, hi=5, alphabet='all', prefix=[c0]), budget=b))
+        out.append(Inst(nesting, dict(lo=0, hi=8, alphabet='brackets', prefix=[]), budget=b))
+    else:
+        out.append(Inst(nesting, dict(lo=0, hi=1, alphabet='all', prefix=[]), budget=b))
+        for c0 in (APP, CTX, OPEN, CLOSE):
+            for c1 in (APP, CTX, OPEN, CLOSE):
+                out.append(Inst(nesting, dict(lo=2, hi=7, alphabet='all', prefix=[c0, c1]), budget=600))
+        out.append(Inst(nesting, dict(lo=0, hi=10, alphabet='brackets', prefix=[]), budget=600))
         out.append(Inst(nesting, dict(lo=0, hi=0, alphabet='ctx+brackets', prefix=[]), budget=b))
         for c0 in (CTX, OPEN, CLOSE):
-            out.append(Inst(nesting, dict(lo=1, hi=8, alphabet='ctx+brackets', prefix=[c0]), budget=b))
+            out.append(Inst(nesting, dict(lo=1, hi=8, alphabet='ctx+brackets', prefix=[c0]), budget=600))
     return out
